@@ -119,6 +119,16 @@ func runC18(c *ctx) error {
 			bases = append(bases, k)
 		}
 	}
+	// private key objects whose private member is gone (a parsed or generated private key after Remove("d")):
+	// their public members are well formed, the key is not
+	for _, base := range append([]jwk.Key(nil), bases...) {
+		switch base.(type) {
+		case jwk.RSAPrivateKey, jwk.ECDSAPrivateKey, jwk.OKPPrivateKey:
+			if k, err := base.Clone(); err == nil && k.Remove("d") == nil {
+				bases = append(bases, k)
+			}
+		}
+	}
 	var algs []any
 	for _, a := range jwa.SignatureAlgorithms() {
 		algs = append(algs, a)
@@ -364,7 +374,7 @@ func runC18(c *ctx) error {
 			c.res.Hist("load." + got[:min(len(got), 6)])
 		}
 	}
-	c.res.Rule = "exhaustive: every base key (RSA-2048, EC P-256/384/521, Ed25519, oct; private and public halves; four structurally invalid keys) x every signature and key-encryption algorithm jwa registers + unknown names + no algorithm, through jwkutil.Validate; generated key pairs for EdDSA/ES512/PS512 validate, sign a step, and verify only with their own public half (6x6 matrix); LoadKey over key sets of <=3 keys from a 9-key pool x requested ids through temp files. Distinct by (base key, algorithm) / (set, requested id)."
+	c.res.Rule = "exhaustive: every base key (RSA-2048, EC P-256/384/521, Ed25519, oct; private and public halves; four structurally invalid keys; private keys without their private member) x every signature and key-encryption algorithm jwa registers + unknown names + no algorithm, through jwkutil.Validate; generated key pairs for EdDSA/ES512/PS512 validate, sign a step, and verify only with their own public half (6x6 matrix); LoadKey over key sets of <=3 keys from a 9-key pool x requested ids through temp files. Distinct by (base key, algorithm) / (set, requested id)."
 	mm, total, err := core.RunSessions(c.driver, []*core.Session{sess}, 20, 0)
 	c.res.ModelRequests = total
 	c.res.Mismatches = mm
